@@ -32,6 +32,9 @@ SEQNO_FILTER = "range::seqno_filter"
 def run(prog, R, tier="quick", only_rule=None):
     from rules.props import c14
     c14.c14c(prog, R, rid="C02.g")
+    # a held snapshot keeps finding its version: the version GC keeps the newest entry below the watermark
+    from rules.props import c20 as _c20
+    _c20.c20d(prog, R, rid="C02.h")
     c02a(prog, R)
     c02b(prog, R)
     c02c(prog, R)
